@@ -114,8 +114,8 @@ claim('C02',
   "satisfying the MILP contract the run never fails (no builder failure, no duplicate variable name), reports Optimal iff a matching "
   "satisfying the requested constraints exists and Infeasible otherwise; every objective-variable bound admits every attainable value. "
   "Tied to the code by R_lp (problems incl. bounds and name partition); M_status compares the reported status with feasibility by "
-  "enumeration in Coq and flags any escaping exception. F01-F06 repaired (corpus/C02). Known finding F16 (criterion values of nine or "
-  "more digits come back rounded from CBC's solution file: a feasible run reported Infeasible) is listed in known_findings.json.",
+  "enumeration in Coq and flags any escaping exception. F01-F06 repaired (corpus/C02). F16 (criterion values of nine or more digits came back "
+  "rounded from CBC's solution file: a feasible run reported Infeasible) repaired too; its witnesses run first (corpus/C02, corpus/C04).",
   "C02: CBC assumed to satisfy milp_ok; 'admissible' = -stab only on two-sided instances, distinct criteria, non-negative multipliers "
   "(any generous / greedy cut-off).")
 claim('C03',
